@@ -167,6 +167,25 @@ def run_case(case, w):
                     bad.append(("net:sequence:%s" % ("pernic" if form else "total"),
                                 "step %d of %r: got %r expected %r" % (step, case[1], freeze(got), want)))
         psutil.net_io_counters.cache_clear()
+    elif k == "net-swap":
+        # default forms again: one interface's counters wrap, then the interface is replaced by another one (the number of
+        # interfaces stays the same), then it is created again: a re-created interface reports exactly the kernel's counters
+        psutil.net_io_counters.cache_clear()
+        a, b = case[1], case[2]
+        steps = [[("lo", 50), (a, 1000)], [("lo", 60), (a, 350)], [("lo", 70), (b, 10)], [("lo", 80), (a, 350)], [("lo", 90), (a, 360)]]
+        for step, ifs_ in enumerate(steps):
+            ifs = [(nm, [v + j for j in range(16)]) for nm, v in ifs_]
+            w.set_file("/proc/net/dev", net_file(ifs))
+            got = outcome(psutil.net_io_counters, pernic=True)
+            tot = outcome(psutil.net_io_counters)
+            if step >= 2:
+                exp = {name: {f: cols[NET_MAP[f]] for f in NET_FIELDS} for name, cols in ifs}
+                want_tot = {f: sum(e[f] for e in exp.values()) for f in NET_FIELDS}
+                if got[0] != "ok" or recs(got[1], NET_FIELDS) != exp:
+                    bad.append(("net:recreated-interface:pernic", "step %d of swap %s->%s->%s: got %r expected %r" % (step, a, b, a, freeze(got), exp)))
+                if tot[0] != "ok" or rec(tot[1], NET_FIELDS) != want_tot:
+                    bad.append(("net:recreated-interface:total", "step %d: got %r expected %r" % (step, freeze(tot), want_tot)))
+        psutil.net_io_counters.cache_clear()
     elif k == "disk-useq":
         # same for disk_io_counters(): whole disks appear / disappear between default-form calls
         psutil.disk_io_counters.cache_clear()
@@ -229,6 +248,8 @@ def build_cases(thorough):
             for c in (sets if thorough else sets[:3]):
                 for pf in (False, True):
                     cases.append(("net-seq", [(a, pf), (b, False), (c, pf)]))
+    for a, b in (("ppp0", "ppp1"), ("eth0:1", "eth0"), ("wlp0s20f3", "a.b")):
+        cases.append(("net-swap", a, b))
     dsets = [(), ("sda",), ("sda", "sdb"), ("sdb",), ("sda", "sdb", "sdc")]
     for a in dsets:
         for b in dsets:
